@@ -63,6 +63,12 @@ def run(rep, work, tier, seed, only=None):
                                                         % (bad, ob['batch_le'][bad], ob['cases'][bad]['le']))),
                           {'instance': key, 'error': {'x': ob['cases'][bad]['x'], 'z': ob['cases'][bad]['z']},
                            'what': 'batch row differs', 'stack': [[o['x'], o['z']] for o in ob['cases']]})
+        if ob.get('form_diff'):
+            d = ob['form_diff'][0]
+            rep.violation(dict(key, site='argument-form'),
+                          '%s: the error X%s Z%s given as %s is judged %s, the same error as a flat uint8 vector %s'
+                          % (rec['tag'], d['x'], d['z'], d['form'], d['got'], d['dense']),
+                          {'instance': key, 'error': {'x': d['x'], 'z': d['z']}, 'what': 'argument form: ' + d['form'], 'detail': d})
         if ob.get('used_diff'):
             d = ob['used_diff'][0]
             rep.violation(dict(key, site='deform-after-use'),
